@@ -8,6 +8,7 @@ import (
 	"encoding/json"
 	"fmt"
 	"os"
+	"sync/atomic"
 	"time"
 )
 
@@ -39,6 +40,7 @@ type Loop struct {
 	MaxRepl int
 	StepNow int64
 	cur     *os.File
+	stepNow atomic.Int64
 	Stop    bool // set by an engine when the process is no longer usable (leaked blocked goroutines)
 }
 
@@ -47,9 +49,34 @@ func NewLoop(o WorkerOpts) *Loop {
 	return &Loop{Opts: o, Rep: NewReport(o.Property, o.Seed, o.Worker, ws), start: time.Now(), seen: map[string]int{}, MaxRepl: 4}
 }
 
+// stallLimit: no case of any engine takes more than a few seconds on code that behaves (the
+// longest legitimate waits are the 60 s watchdogs of C11 and C20 for code that does not).
+const stallLimit = 200 * time.Second
+
 func (l *Loop) Run(step func(i int64, caseSeed uint64)) {
+	if l.Opts.OutDir != "" {
+		// a case that never ends (the code under test loops, or computes for ever) cannot be
+		// interrupted from inside: the process says so in the words the driver looks for and
+		// exits; the case is in current.<worker>.json
+		go func() {
+			last, since := int64(-1), time.Now()
+			for {
+				time.Sleep(2 * time.Second)
+				now := l.stepNow.Load()
+				if now != last {
+					last, since = now, time.Now()
+					continue
+				}
+				if time.Since(since) > stallLimit {
+					fmt.Fprintf(os.Stderr, "fatal error: verif watchdog: the case at step %d did not finish within %s\n", now, stallLimit)
+					os.Exit(3)
+				}
+			}
+		}()
+	}
 	for i := int64(0); ; i++ {
 		l.StepNow = i
+		l.stepNow.Store(i)
 		if l.Opts.UpTo >= 0 {
 			if i > l.Opts.UpTo {
 				break
